@@ -161,7 +161,24 @@ func SameSet(a, b map[string]bool) bool {
 }
 
 // FilterNames is the sibling-confusable name universe of the filter checks.
-var FilterNames = []string{"a", "ab", "a-b", "a b", ".c", "b", "c", "abc", "a.b"}
+var FilterNames = []string{"a", "ab", "a-b", "a b", ".c", "b", "c", "abc", "a.b", "a[b]", "!a"}
+
+// escapeComp writes a path component as a pattern that matches it literally:
+// glob meta characters are escaped, and sometimes an ordinary one too.
+func escapeComp(r *core.Rand, c string) string {
+	var b strings.Builder
+	for i := 0; i < len(c); i++ {
+		ch := c[i]
+		punct := ch < 0x80 && !(ch >= 'a' && ch <= 'z') && !(ch >= 'A' && ch <= 'Z') && !(ch >= '0' && ch <= '9')
+		// (an escaped letter or digit would be a regexp class in the
+		// matcher library, e.g. \d: only punctuation is escaped)
+		if strings.IndexByte("*?[]\\", ch) >= 0 || (i == 0 && ch == '!') || (punct && r.P(1, 3)) {
+			b.WriteByte('\\')
+		}
+		b.WriteByte(ch)
+	}
+	return b.String()
+}
 
 var patComps = []string{"a", "ab", "a-b", "a b", ".c", "b", "c", "abc", "a.b", "*", "a*", "?", "a?", "**", "[ab]", "[a-c]*", "*b", "*c", "b*", "?b", "a[!b]*", `a\-b`, "x"}
 
@@ -202,6 +219,18 @@ func GenPatternFor(r *core.Rand, paths []string, allowNeg bool) string {
 	parts := strings.Split(core.Pick(r, paths), "/")
 	if len(parts) > 1 && r.P(1, 3) {
 		parts = parts[:r.Range(1, len(parts))]
+	}
+	if r.P(1, 5) {
+		// the path itself, written with escapes: a pattern without any
+		// wildcard that still is not the literal text of the path
+		for i := range parts {
+			parts[i] = escapeComp(r, parts[i])
+		}
+		p := strings.Join(parts, "/")
+		if allowNeg && r.P(1, 4) {
+			p = "!" + p
+		}
+		return p
 	}
 	for i := range parts {
 		switch r.Intn(9) {
